@@ -47,9 +47,58 @@ CanShift(c) == c.mode = "split"
 \* moved by the file's start offset) is applicable when the stand-alone build
 \* prints the file identically: no identifier minification, no composition
 Rebasable(c) == c.mode = "bundle" /\ c.minify # "all" /\ ~c.compose
+\* input-map family: a file with an input map is printed identically alone and in
+\* the bundle as well (its own sources then start at index 0)
+RebasableIn(c) == c.mode = "bundle" /\ c.minify # "all" /\ c.compose
 \* everything lands on one generated line (plus the banner line): the column
 \* carry of Join (prevColumnOffset) is exercised
 OneLine(c) == c.minify # "none"
+
+(***************************************************************************)
+(* Input source maps (composition), the second replay family.              *)
+(* A scenario = one bundle configuration (compose = TRUE, mode = bundle)   *)
+(* x one POSITION PATTERN (which files of the bundle, in output order       *)
+(* dep1, dep2, ..., entry, carry an input source map) x one input-map       *)
+(* descriptor per marked position.  TLC exports patterns and descriptors;   *)
+(* the harness pairs them (seeded).                                         *)
+(***************************************************************************)
+Origins == {"transform",   \* the file is the output of esbuild's transform of ONE original file
+            "bundle2",     \* the file is an esbuild bundle of 2 original files (a multi-source map)
+            "bundle3",     \* ... of 3 original files
+            "hand2",       \* hand-built: statements of 2 original files interleaved, re-indented
+            "hand3"}       \* ... of 3 original files
+InMaps ==
+  [ origin  : Origins,
+    carrier : {"inline", "external"},            \* data: URL comment / .map file next to the file
+    content : {"embedded", "disk", "missing"},   \* sourcesContent in the input map / absent, originals on disk / absent, originals not on disk
+    root    : BOOLEAN,                           \* the input map has a sourceRoot
+    names   : BOOLEAN,                           \* the input map has names (first stage renames identifiers / hand-built names)
+    sparse  : {"full", "coarse", "holes"} ]      \* every token mapped / one mapping per line / 1-field segments and unmapped lines
+HandBuilt(d) == d.origin \in {"hand2", "hand3"}
+SensibleIn(d) == ~HandBuilt(d) => d.sparse = "full"     \* esbuild-made maps are as esbuild makes them
+\* how many entries the file contributes to the bundle's "sources" (the source
+\* index base of the NEXT file moves by this: SourceMap.tla PassStep)
+Nsrc(d) == IF d.origin = "transform" THEN 1 ELSE IF d.origin \in {"bundle2", "hand2"} THEN 2 ELSE 3
+\* every marker token of the intermediate text starts a mapping of the input map:
+\* the composed map must then be true marker by marker; otherwise the composed
+\* original position is the one of the covering mapping (SourceMap.tla RefFind)
+TokenExact(d) == d.sparse = "full"
+Slots == {"P", "I"}     \* plain file / file with an input map
+Patterns == {t \in UNION {[1..n -> Slots] : n \in 2..4} : \E i \in DOMAIN t : t[i] = "I"}
+\* the bundle's "sources" has sum of Nsrc entries (1 for a plain file)
+NumSources(t, ds) == LET RECURSIVE Sum(_) Sum(i) == IF i = 0 THEN 0 ELSE Sum(i - 1) + (IF t[i] = "I" THEN Nsrc(ds[i]) ELSE 1) IN Sum(Len(t))
+
+(***************************************************************************)
+(* CSS and TypeScript/JSX families (basic)                                 *)
+(***************************************************************************)
+\* a CSS bundle: entry a.css imports b.css and c.css; dup: b.css is imported twice
+\* under different conditions (one file, two results, ONE slot in "sources":
+\* SourceMap.tla WithRepeat); inmap: which dependency carries a hand-built
+\* two-source input map (first: files after it are shifted by 2 in "sources")
+CssConfigs == [minify : {"none", "all"}, content : BOOLEAN, dup : BOOLEAN, inmap : {"none", "first", "middle"}]
+CssNumSources(c) == 3 + (IF c.inmap = "none" THEN 0 ELSE 1)
+\* TypeScript: type-erased code keeps the columns of what remains
+TsConfigs == [mode : {"transform", "bundle"}, minify : {"none", "ws", "all"}, content : BOOLEAN, jsx : BOOLEAN]
 
 VARIABLE x
 Init == x = 0
@@ -61,13 +110,22 @@ SeqOf(f) == [i \in 1..Len(f) |-> f[i]]
 Export ==
   /\ \A c \in Configs : Sensible(c) =>
         PrintT(<<"CASE", ToJson(c @@ [kind |-> "config", canShift |-> CanShift(c),
-                                       rebasable |-> Rebasable(c), oneLine |-> OneLine(c)])>>)
+                                       rebasable |-> Rebasable(c), rebasableIn |-> RebasableIn(c), oneLine |-> OneLine(c)])>>)
   /\ \A t \in LayoutTuples :
         PrintT(<<"CASE", ToJson([kind |-> "layout", files |-> SeqOf(t)])>>)
+  /\ \A d \in InMaps : SensibleIn(d) =>
+        PrintT(<<"CASE", ToJson(d @@ [kind |-> "inmap", nsrc |-> Nsrc(d), tokenExact |-> TokenExact(d)])>>)
+  /\ \A c \in CssConfigs : PrintT(<<"CASE", ToJson(c @@ [kind |-> "css", nsources |-> CssNumSources(c)])>>)
+  /\ \A c \in TsConfigs : PrintT(<<"CASE", ToJson(c @@ [kind |-> "ts"])>>)
+  /\ \A t \in Patterns :
+        PrintT(<<"CASE", ToJson([kind |-> "pattern", files |-> SeqOf(t)])>>)
 
 ASSUME \E c \in Configs : Sensible(c) /\ Rebasable(c) /\ OneLine(c)
 ASSUME \E c \in Configs : Sensible(c) /\ CanShift(c) /\ c.names = "long" /\ c.minify = "all"
 ASSUME \E c \in Configs : Sensible(c) /\ c.compose /\ c.mode = "bundle"
 ASSUME Cardinality(LayoutTuples) = 7 + 49 + 343
+ASSUME Cardinality(Patterns) = 3 + 7 + 15
+ASSUME Cardinality({d \in InMaps : SensibleIn(d)}) = 3 * 24 + 2 * 72
+ASSUME \E d \in InMaps : SensibleIn(d) /\ Nsrc(d) = 3 /\ ~TokenExact(d)
 ASSUME Export
 =============================================================================
